@@ -1,13 +1,14 @@
 //! State-aware random walks over the public API of a connection + arbitrary peer traffic.
 use crate::conn::*;
 use crate::rng::{hex, Rng};
-use mqtt_protocol_core::mqtt::connection::role::{Any, Client, RoleType, Server};
+use mqtt_protocol_core::mqtt::connection::role::{Any, Client, Server};
+use crate::csend::RoleX;
 use mqtt_protocol_core::mqtt::packet::IsPacketId;
 use std::io::Write;
 
 const TOPICS: [&[u8]; 4] = [b"a", b"b", b"c/d", b"topic/long/name"];
 
-struct Gen<'a, R: RoleType, T: IsPacketId> {
+struct Gen<'a, R: RoleX, T: IsPacketId> {
     s: Sess<R, T>,
     rng: &'a mut Rng,
     role: &'static str,
@@ -33,11 +34,13 @@ struct Gen<'a, R: RoleType, T: IsPacketId> {
     force_rc: Option<u8>,        // return / reason code of the next CONNACK (either direction)
     force_own_tam: Option<u16>,  // the Topic Alias Maximum WE announce in the next handshake
     force_peer_rm: Option<u16>,  // the Receive Maximum the PEER announces in the next handshake
+    force_own_mps: Option<u32>,  // the Maximum Packet Size WE announce in the next handshake
     ska_first: bool,             // the next CONNACK lists Server Keep Alive before every other property
     window_ops: Vec<String>,     // calls made between CONNECT and CONNACK of the next handshake
+    via_checked: bool,           // this walk uses `checked_send` for half of its sends
 }
 
-impl<'a, R: RoleType, T: IsPacketId> Gen<'a, R, T> {
+impl<'a, R: RoleX, T: IsPacketId> Gen<'a, R, T> {
     fn ver(&self) -> u8 {
         let v = self.s.version();
         if v == 0 {
@@ -63,6 +66,8 @@ impl<'a, R: RoleType, T: IsPacketId> Gen<'a, R, T> {
         }
     }
     fn op(&mut self, o: String) {
+        // a third of the sends go through the compile-time-checked entry point
+        let o = if o.starts_with("send ") && self.via_checked && self.rng.chance(1, 2) { format!("{o} c") } else { o };
         let before = self.s.out_lines.len();
         self.s.apply(&o);
         if self.legal && !self.s.dead && o != "closed" {
@@ -132,6 +137,10 @@ impl<'a, R: RoleType, T: IsPacketId> Gen<'a, R, T> {
             if let Some(t) = self.force_own_tam {
                 ps.retain(|p| !matches!(p, P::U16(34, _)));
                 ps.push(P::U16(34, t));
+            }
+            if let Some(m) = self.force_own_mps {
+                ps.retain(|p| !matches!(p, P::U32(39, _)));
+                ps.push(P::U32(39, m));
             }
         }
         if for_connack == self.acts_as_client() {
@@ -301,7 +310,7 @@ impl<'a, R: RoleType, T: IsPacketId> Gen<'a, R, T> {
                 }
                 self.fresh_id()
             }
-            1 if !self.legal => *self.rng.pick(&[0u64, 1, 2, 9, self.idmax()]), // not obtained from the API
+            1 | 2 | 3 if !self.legal => *self.rng.pick(&[0u64, 1, 2, 9, self.idmax()]), // not obtained from the API
             _ => {
                 self.op("acquire".into());
                 let r = self.last_ret();
@@ -817,7 +826,35 @@ impl<'a, R: RoleType, T: IsPacketId> Gen<'a, R, T> {
     fn garbage(&mut self) {
         let v = self.ver();
         let pw = self.pw();
-        match self.rng.below(6) {
+        match self.rng.below(8) {
+            6 => {
+                // packet kinds without a body arriving with one; a CONNACK with reserved flag bits
+                let b = match self.rng.below(5) {
+                    0 => vec![0xc0, 0x01, 0x00],
+                    1 => vec![0xd0, 0x01, 0x00],
+                    2 => vec![0xd0, 0x02, 0x00, 0x00],
+                    3 if v == 4 => vec![0xe0, 0x01, 0x00],
+                    _ => {
+                        let mut b = w_connack(v, false, 0, &[]);
+                        b[2] |= 0x02;
+                        b
+                    }
+                };
+                self.recv(b);
+            }
+            7 => {
+                // frames whose Remaining Length needs three bytes; only into an idle assembler (a
+                // desynchronised one would cut the buffer into thousands of calls, each recorded
+                // with the rest of the buffer)
+                if self.s.field("pb") == "F//0/1/" && self.rng.chance(1, 3) {
+                    let target: usize = 16381 + self.rng.below(6) as usize;
+                    let base = w_publish(v, pw, 0, false, false, b"a", 0, &[], b"").len() - 2;
+                    let b = w_publish(v, pw, 0, false, false, b"a", 0, &[], &vec![0x42u8; target - base]);
+                    self.op(format!("recv {}", hex(&b)));
+                } else {
+                    self.recv(w_simple(0xd0));
+                }
+            }
             0 => {
                 let n = 1 + self.rng.below(8);
                 let g: Vec<u8> = (0..n).map(|_| self.rng.below(256) as u8).collect();
@@ -929,7 +966,7 @@ impl<'a, R: RoleType, T: IsPacketId> Gen<'a, R, T> {
     }
 }
 
-fn walk<R: RoleType, T: IsPacketId>(role: &'static str, ver: u8, steps: usize, rng: &mut Rng, name: &str, out: &mut dyn Write, mode: u8) -> bool {
+fn walk<R: RoleX, T: IsPacketId>(role: &'static str, ver: u8, steps: usize, rng: &mut Rng, name: &str, out: &mut dyn Write, mode: u8) -> bool {
     if mode == 1 {
         return reuse_trial::<R, T>(role, ver, steps, rng, name, out);
     }
@@ -964,8 +1001,10 @@ fn walk<R: RoleType, T: IsPacketId>(role: &'static str, ver: u8, steps: usize, r
         force_rc: None,
         force_own_tam: None,
         force_peer_rm: None,
+        force_own_mps: None,
         ska_first: false,
         window_ops: vec![],
+        via_checked: false,
     };
     // options
     for f in ["off", "apr", "aping", "amap", "arep"] {
@@ -973,6 +1012,7 @@ fn walk<R: RoleType, T: IsPacketId>(role: &'static str, ver: u8, steps: usize, r
             g.op(format!("set {f} 1"));
         }
     }
+    g.via_checked = g.rng.chance(1, 2);
     if g.rng.chance(1, 4) {
         let t = *g.rng.pick(&[1000u64, 3000]);
         g.op(format!("rto {t}"));
@@ -1508,6 +1548,26 @@ fn walk<R: RoleType, T: IsPacketId>(role: &'static str, ver: u8, steps: usize, r
             }
         }
     }
+    if g.legal && g.s.version() == 5 && g.rng.chance(1, 10) {
+        // directed: the Maximum Packet Size WE announce sits at / one below the total size of an
+        // inbound frame whose Remaining Length is at a length-field step (127/128, 16383/16384,
+        // rarely 2097151/2097152)
+        let pw = g.pw();
+        let rl: usize = if g.rng.chance(1, 30) { *g.rng.pick(&[2097151usize, 2097152]) } else { *g.rng.pick(&[127usize, 128, 16383, 16384]) };
+        let lenbytes = if rl < 128 { 1 } else if rl < 16384 { 2 } else if rl < 2097152 { 3 } else { 4 };
+        let total = (1 + lenbytes + rl) as u32;
+        g.force_ok = true;
+        g.force_own_mps = Some((total as i64 + *g.rng.pick(&[-1i64, 0, 0, 1])) as u32);
+        g.handshake();
+        g.force_own_mps = None;
+        g.force_ok = false;
+        if g.status() == "C" && g.s.field("pb") == "F//0/1/" {
+            let q = *g.rng.pick(&[0u8, 1]);
+            let base = w_publish(5, pw, q, false, false, b"a", 1, &[], b"").len() - 2;
+            let b = w_publish(5, pw, q, false, false, b"a", 1, &[], &vec![0x43u8; rl - base]);
+            g.op(format!("recv {}", hex(&b)));
+        }
+    }
     if !g.started && g.rng.chance(1, 6) {
         // resume from an export made by a previous process (before any connection of this object)
         for _ in 0..2 {
@@ -1554,11 +1614,11 @@ fn ops_of(lines: &[String]) -> Vec<String> {
 /// C10: history H on one object, transport closed, then a script S that starts a NEW session,
 /// run on the reused object and on a fresh object with the same options; the fresh object's
 /// trace carries, after every call, a `Y` line with what the reused object answered.
-fn reuse_trial<R: RoleType, T: IsPacketId>(role: &'static str, ver: u8, steps: usize, rng: &mut Rng, name: &str, out: &mut dyn Write) -> bool {
+fn reuse_trial<R: RoleX, T: IsPacketId>(role: &'static str, ver: u8, steps: usize, rng: &mut Rng, name: &str, out: &mut dyn Write) -> bool {
     let focus = rng.below(6) as u8;
     let mut g = Gen::<R, T> {
         s: Sess::new(ver), rng, role, my_ids: vec![], inflight: vec![], rel_wait: vec![], peer_pubs: vec![], subs: vec![],
-        peer_mps: None, focus, legal: true, started: false, force_clean: None, force_ok: false, force_persist: false, force_ska: None, force_own_rm: None, force_peer_mps: None, force_peer_tam: None, boundary: false, plain_pub: false, force_sp: None, force_rc: None, force_own_tam: None, force_peer_rm: None, ska_first: false, window_ops: vec![],
+        peer_mps: None, focus, legal: true, started: false, force_clean: None, force_ok: false, force_persist: false, force_ska: None, force_own_rm: None, force_peer_mps: None, force_peer_tam: None, boundary: false, plain_pub: false, force_sp: None, force_rc: None, force_own_tam: None, force_peer_rm: None, force_own_mps: None, ska_first: false, window_ops: vec![], via_checked: false,
     };
     for f in ["off", "apr", "aping", "amap", "arep"] {
         if g.rng.chance(2, 5) {
@@ -1709,10 +1769,10 @@ fn reuse_trial<R: RoleType, T: IsPacketId>(role: &'static str, ver: u8, steps: u
 /// C16: a persistent session is run on object A up to a crash point; the exported stored packets
 /// and handled ids are restored into a fresh object B; both resume the session (A after a close
 /// report) and run the same continuation; B's trace carries `Y` lines with A's answers.
-fn restore_trial<R: RoleType, T: IsPacketId>(role: &'static str, ver: u8, steps: usize, rng: &mut Rng, name: &str, out: &mut dyn Write) -> bool {
+fn restore_trial<R: RoleX, T: IsPacketId>(role: &'static str, ver: u8, steps: usize, rng: &mut Rng, name: &str, out: &mut dyn Write) -> bool {
     let mut g = Gen::<R, T> {
         s: Sess::new(ver), rng, role, my_ids: vec![], inflight: vec![], rel_wait: vec![], peer_pubs: vec![], subs: vec![],
-        peer_mps: None, focus: 1, legal: true, started: false, force_clean: None, force_ok: false, force_persist: false, force_ska: None, force_own_rm: None, force_peer_mps: None, force_peer_tam: None, boundary: false, plain_pub: false, force_sp: None, force_rc: None, force_own_tam: None, force_peer_rm: None, ska_first: false, window_ops: vec![],
+        peer_mps: None, focus: 1, legal: true, started: false, force_clean: None, force_ok: false, force_persist: false, force_ska: None, force_own_rm: None, force_peer_mps: None, force_peer_tam: None, boundary: false, plain_pub: false, force_sp: None, force_rc: None, force_own_tam: None, force_peer_rm: None, force_own_mps: None, ska_first: false, window_ops: vec![], via_checked: false,
     };
     g.op("set apr 1".into());
     for f in ["off", "aping", "amap", "arep"] {
@@ -1874,11 +1934,11 @@ fn restore_trial<R: RoleType, T: IsPacketId>(role: &'static str, ver: u8, steps:
 /// level but refused by the version's parser) and any traffic after it; the same script runs on a
 /// server created with version `v`.  The fixed-version object's trace carries, after every call,
 /// a `Y` line with what the undetermined object answered.
-fn undet_trial<R: RoleType, T: IsPacketId>(role: &'static str, steps: usize, rng: &mut Rng, name: &str, out: &mut dyn Write) -> bool {
+fn undet_trial<R: RoleX, T: IsPacketId>(role: &'static str, steps: usize, rng: &mut Rng, name: &str, out: &mut dyn Write) -> bool {
     let focus = rng.below(6) as u8;
     let mut g = Gen::<R, T> {
         s: Sess::new(0), rng, role, my_ids: vec![], inflight: vec![], rel_wait: vec![], peer_pubs: vec![], subs: vec![],
-        peer_mps: None, focus, legal: true, started: false, force_clean: None, force_ok: false, force_persist: false, force_ska: None, force_own_rm: None, force_peer_mps: None, force_peer_tam: None, boundary: false, plain_pub: false, force_sp: None, force_rc: None, force_own_tam: None, force_peer_rm: None, ska_first: false, window_ops: vec![],
+        peer_mps: None, focus, legal: true, started: false, force_clean: None, force_ok: false, force_persist: false, force_ska: None, force_own_rm: None, force_peer_mps: None, force_peer_tam: None, boundary: false, plain_pub: false, force_sp: None, force_rc: None, force_own_tam: None, force_peer_rm: None, force_own_mps: None, ska_first: false, window_ops: vec![], via_checked: false,
     };
     let mut options = vec![];
     for f in ["off", "apr", "aping", "amap", "arep"] {
